@@ -18,6 +18,7 @@ let () =
     | "qword" -> C15.model_line, None
     | "rword" -> C15.rword_line, None
     | "pexp" -> C15.pexp_line, None
+    | "rword2" -> C15.rword2_line, None
     | "hdoc" -> C15.hdoc_line, None
     | "gap" -> Gap.model_line, None
     | "hdp" -> Hdp.model_line, Some Hdp.judge_line
